@@ -236,6 +236,8 @@ func checkC15(w *World, r *Report) {
 	checkExistsAndRegistry(w, r)
 	checkSettersUnconditional(w, r)
 	checkLoadersAlwaysRegistered(w, r)
+	checkCachedTimestampsKept(w, r)
+	checkOnlyLoadingGivesALoader(w, r)
 	// loaders are only appended
 	n2 := 0
 	for _, fn := range w.pkgFuncs() {
@@ -1719,4 +1721,136 @@ func checkLoadersAlwaysRegistered(w *World, r *Report) {
 		})
 	}
 	r.floor("registrations of a loader on the engine", n, 1)
+}
+
+// checkCachedTimestampsKept — R15.12: the modification time recorded with a cached template is
+// the time of the source it was built from.  No function writes Template.lastModified of a
+// template it took out of the engine's cache (a lookup in, or a range over, Engine.templates):
+// bringing the timestamp "up to date" without re-reading the source makes the next staleness test
+// say unchanged, and a change made before that moment is never picked up.
+func checkCachedTimestampsKept(w *World, r *Report) {
+	n := 0
+	fromCache := func(v ssa.Value) bool {
+		seen := map[ssa.Value]bool{}
+		var walk func(v ssa.Value, d int) bool
+		walk = func(v ssa.Value, d int) bool {
+			v = unspill(v)
+			if v == nil || seen[v] || d > 8 {
+				return false
+			}
+			seen[v] = true
+			switch x := v.(type) {
+			case *ssa.Lookup:
+				if _, ok := fieldLoad(x.X, "Engine", "templates"); ok {
+					return true
+				}
+			case *ssa.Extract:
+				return walk(x.Tuple, d+1)
+			case *ssa.Next:
+				return walk(x.Iter, d+1)
+			case *ssa.Range:
+				if _, ok := fieldLoad(x.X, "Engine", "templates"); ok {
+					return true
+				}
+			case *ssa.Phi:
+				for _, e := range x.Edges {
+					if walk(e, d+1) {
+						return true
+					}
+				}
+			}
+			return false
+		}
+		return walk(v, 0)
+	}
+	for _, fn := range w.pkgFuncs() {
+		instrsOf(fn, func(in ssa.Instruction) {
+			st, ok := in.(*ssa.Store)
+			if !ok {
+				return
+			}
+			base, ok := fieldAddr(st.Addr, "Template", "lastModified")
+			if !ok {
+				return
+			}
+			n++
+			construct := "store Template.lastModified"
+			if fromCache(base) {
+				r.bad("R15.12", ssaName(fn), construct, w.posOf(in.Pos()), "the template whose timestamp is rewritten was taken out of the engine's cache: its source is not re-read here, so after this store the staleness test finds it current although the loader's source changed before — the change is never served")
+			} else {
+				r.ok("R15.12", ssaName(fn), construct, w.posOf(in.Pos()), "the template is being built or was handed in, not taken from the cache", false)
+			}
+		})
+	}
+	r.floor("stores of Template.lastModified", n, 2)
+}
+
+// checkOnlyLoadingGivesALoader — R15.13: a template has a loader only if a loader delivered it.
+// Every non-nil value stored into Template.loader is stored on the loading path (Engine.Load and
+// its unexported parts), or is a parameter of an unexported constructor to which only the loading
+// path passes a non-nil loader.  A template registered by the caller (a string, a compiled
+// template) that is given "the loader that has the same name" is replaced by that loader's source
+// at the next staleness check: the source most recently registered under the name is lost.
+func checkOnlyLoadingGivesALoader(w *World, r *Report) {
+	parts := w.loadPartsSet()
+	n := 0
+	var judge func(fn *ssa.Function, v ssa.Value, depth int) string
+	judge = func(fn *ssa.Function, v ssa.Value, depth int) string {
+		v = unspill(v)
+		if isNilConst(v) {
+			return ""
+		}
+		if ph, ok := v.(*ssa.Phi); ok {
+			for _, e := range ph.Edges {
+				if s := judge(fn, e, depth); s != "" {
+					return s
+				}
+			}
+			return ""
+		}
+		if p, ok := v.(*ssa.Parameter); ok && depth < 3 && fn.Object() != nil && !fn.Object().Exported() {
+			idx := -1
+			for i, q := range fn.Params {
+				if q == p {
+					idx = i
+				}
+			}
+			for _, e := range realInEdges(fn) {
+				if e.Site == nil || e.Site.Common().StaticCallee() != fn || idx < 0 || idx >= len(e.Site.Common().Args) {
+					continue
+				}
+				if s := judge(e.Caller.Func, e.Site.Common().Args[idx], depth+1); s != "" {
+					return s
+				}
+			}
+			return ""
+		}
+		if parts[fn] {
+			return ""
+		}
+		// copying the loader of another template (a clone) keeps the invariant
+		if _, ok := fieldLoad(v, "Template", "loader"); ok {
+			return ""
+		}
+		return ssaName(fn)
+	}
+	for _, fn := range w.pkgFuncs() {
+		instrsOf(fn, func(in ssa.Instruction) {
+			st, ok := in.(*ssa.Store)
+			if !ok {
+				return
+			}
+			if _, ok := fieldAddr(st.Addr, "Template", "loader"); !ok {
+				return
+			}
+			n++
+			construct := "store Template.loader"
+			if where := judge(fn, st.Val, 0); where == "" {
+				r.ok("R15.13", ssaName(fn), construct, w.posOf(in.Pos()), "nil, or the loader that delivered the source on the loading path", true)
+			} else {
+				r.bad("R15.13", ssaName(fn), construct, w.posOf(in.Pos()), "a template that no loader delivered is given a loader (in "+where+"): at the next staleness check the engine compares it with that loader and replaces what was registered by the loader's source — Load no longer serves the source most recently registered under the name")
+			}
+		})
+	}
+	r.floor("stores of Template.loader", n, 2)
 }
